@@ -31,7 +31,8 @@ def backoff(n):
 class RetryHarness:
     horizon = 200
 
-    def __init__(self, variant, retries, scheme="http", uds=False, exchange_fault=True):
+    def __init__(self, variant, retries, scheme="http", uds=False, exchange_fault=True, via_auto=False):
+        self.via_auto = via_auto      # async only: the library's default AutoBackend object delegating to the simulated backend
         self.variant = variant
         self.retries = retries
         self.scheme = scheme
@@ -45,7 +46,15 @@ class RetryHarness:
         w = SeqWorld(chooser, lambda kind, host, port: server.new_conn(), variant=self.variant, faults=50, fault_kinds=kinds)
         w.env.fp = None     # plain tree enumeration, no merging needed
         cls = httpcore.ConnectionPool if self.variant == "sync" else httpcore.AsyncConnectionPool
-        pool = cls(ssl_context=sim.RecordingSSLContext("origin"), retries=self.retries, network_backend=w.backend,
+        backend = w.backend
+        auto = None
+        if self.via_auto:
+            # what a pool created without network_backend= uses: AutoBackend picks the concrete backend lazily and delegates
+            # connect_tcp / connect_unix_socket / sleep to it; here the concrete backend is the simulated one
+            from httpcore._backends.auto import AutoBackend
+            auto = backend = AutoBackend()
+            auto._backend = w.backend
+        pool = cls(ssl_context=sim.RecordingSSLContext("origin"), retries=self.retries, network_backend=backend,
                    uds="/run/sock" if self.uds else None)
         url = f"{self.scheme}://a.example/t/tok"
         if self.variant == "sync":
@@ -64,10 +73,14 @@ class RetryHarness:
                 finally:
                     await pool.aclose()
             res = w.run(async_fn=aprog)
+        if auto is not None and getattr(auto, "_backend", None) is not w.backend:
+            raise engine.MachineryError("AutoBackend no longer keeps its concrete backend in _backend: the via_auto seam of C20 does not apply")
         ex = Execution()
         ledger = w.net.ledger
         ex.trace = [op.rec() for op in ledger]
         sig = {"harness": "retry", "scheme": self.scheme, "uds": self.uds, "retries": self.retries}
+        if self.via_auto:
+            sig["via_auto"] = True
 
         def viol(kind, msg):
             ex.violations.append(Violation("C20." + kind, f"{msg} | variant={self.variant} N={self.retries} scheme={self.scheme} uds={self.uds} "
@@ -161,6 +174,8 @@ def specs(tier, variants=("sync", "async")):
             for scheme in ("http", "https"):
                 for uds in (False, True):
                     out.append(make_spec(MOD, "RetryHarness", variant=variant, retries=n, scheme=scheme, uds=uds))
+                    if variant == "async" and n in (0, 2, 3):
+                        out.append(make_spec(MOD, "RetryHarness", variant=variant, retries=n, scheme=scheme, uds=uds, via_auto=True))
     return out
 
 
@@ -176,7 +191,7 @@ def check(tier="quick", seed=0, workers=None, only=None):
         st,
         rule=("prefix-closed tree of outcome sequences: every establishment operation answered with success / ConnectError / ConnectTimeout / "
               "ReadTimeout / WriteError / OSError, at the TCP (or Unix-socket) and TLS stages, then the exchange succeeds or fails with ReadError; "
-              "for retries N in 0..3 (quick) / 0..4 (thorough), http and https, TCP and UDS, sync and async; no merging: executions = leaves; "
+              "for retries N in 0..3 (quick) / 0..4 (thorough), http and https, TCP and UDS, sync and async, and (async, N in 0,2,3) through the library's default AutoBackend object delegating to the simulated backend; no merging: executions = leaves; "
               "non-trivial = outcome class (attempts, established?, final error) with more than one attempt or a failed establishment"),
         extra={"scenarios": len(sp)})
     return {"level": "fault_enumeration", "coverage": cov, "violations": viols,
